@@ -737,11 +737,11 @@ fn set_max(rep: &mut Report, name: &str, v: u64) {
 
 fn one_run(ctx: &mut Ctx, rep: &mut Report, case: &Case, attempt: u64, selftest: bool) -> Vec<AEv> {
     let seed = ctx.seed;
-    let out = run_case(case, seed ^ attempt.wrapping_mul(0x51_7C_C1), Duration::from_secs(10));
+    let out = run_case(case, seed ^ attempt.wrapping_mul(0x51_7C_C1), Duration::from_secs(120));
     let cj = case_json(case, seed);
     if !out.hung.is_empty() {
         let tail: Vec<String> = out.log.iter().rev().take(12).rev().map(|e| format!("{}:{}:{:?}", e.tid, e.kind, &e.args[1..])).collect();
-        rep.oracle_fail("queue-hang", &format!("threads {:?} did not finish within 10 s; last events {:?}", out.hung, tail), cj.clone());
+        rep.oracle_fail("queue-hang", &format!("threads {:?} did not finish within 120 s; last events {:?}", out.hung, tail), cj.clone());
     }
     let evs = match annotate(case, &out) {
         Ok(v) => v,
